@@ -6,15 +6,17 @@
    specification function, and its adequacy: it decides the declarative (inductive) reading of
    FieldsInSetCanMerge / SameResponseShape; for the memoised algorithm as modelled in Valid/OverlapOpt.v (steps
    A-J with both memo tables, tied to the real rule by verdict, final memo tables and the
-   sequence of memo decisions): every comparison skipped on a memo hit was started earlier
+   sequence of memo decisions): termination on every document; every comparison skipped on a memo hit was started earlier
    under a flag that subsumes the query.
-   NOT proved: equivalence of the memoised algorithm with [spec_conflicts].  It is stated as
-   [C14_equiv_statement] (a definition, not a theorem) and checked instance by instance by the
+   Equivalence of the memoised algorithm with [spec_conflicts] is proved for documents without
+   named fragments only ([C14_equiv_partial]).  NOT proved in general (with fragments, where the
+   memo tables matter): stated as [C14_equiv_statement] (a definition, not a theorem) and checked
+   instance by instance by the
    correspondence run of harness/c14.py (real rule vs extracted [spec_conflicts] vs extracted
    [opt_conflicts]). *)
 From Coq Require Import Permutation.
 From GV Require Import Base.Prelude Valid.Overlap Valid.OverlapProps Valid.PairSet Valid.PairSetProps
-  Valid.OverlapOpt Valid.OverlapOptProps Valid.OverlapAdequacy.
+  Valid.OverlapOpt Valid.OverlapOptProps Valid.OverlapAdequacy Valid.OverlapEquiv Valid.OverlapOptTerm.
 
 (* PairSet: has after add; a non-exclusive entry answers the exclusive and the non-exclusive
    query, an exclusive entry only the exclusive query; the set is unordered; an addition is
@@ -79,6 +81,16 @@ Theorem C14_terminates : forall s d, spec_verdict s d <> VFuel.
 Proof. exact spec_verdict_terminates. Qed.
 Print Assumptions C14_terminates.
 
+(* The memoised algorithm (Valid/OverlapOpt.v, the shape of the implementation) terminates on
+   every document, cyclic and mutually recursive spreads included, in whatever order the
+   definitions are visited: with opt_fuel d = (2*#sets*#fragments + 2*#fragments^2 + 1) *
+   (2*depth + 3) it never runs out of fuel.  (Every memo miss strictly decreases a potential
+   over the finite set of memo keys; between two misses calls descend into sub-selections.) *)
+Theorem C14_memoised_terminates : forall s d order fuel,
+  (opt_fuel d <= fuel)%nat -> opt_run s d order fuel <> RFuel.
+Proof. exact opt_terminates. Qed.
+Print Assumptions C14_memoised_terminates.
+
 (* The executable specification function (a search with a visited set) decides the declarative
    reading of section 5.3.2: [DocConf s d] = some selection set of the document (operation,
    fragment, field or inline-fragment selection set, with the type it applies to), with fragments
@@ -119,6 +131,23 @@ Theorem C14_no_hidden_comparison : forall s d order fuel m,
     exists a' b' r, In (EvStart t a' b' r) l2 /\ same_key t a b a' b' /\ (r = false \/ r = q).
 Proof. intros s d order fuel m H. exact (no_hidden_comparison s d order fuel m H). Qed.
 Print Assumptions C14_no_hidden_comparison.
+
+(* Equivalence of the memoised algorithm with the specification function, proved for documents
+   WITHOUT named fragments (hence _partial: there the memo tables are never consulted; what is
+   proved is that the algorithm's decomposition into "within one selection set" and "between
+   the sub-selections of two fields", evaluated on every selection set of the document, finds a
+   conflict iff the specification's all-pairs-of-the-merged-set recursion does).  Hypotheses:
+   no fragment definitions, every operation typable with a composite root type and free of
+   spreads, every operation visited, fuel >= twice the nesting depth, unique field ids. *)
+Theorem C14_equiv_partial : forall s d order fuel,
+  d_frags d = [] ->
+  (forall o, In o (d_ops d) ->
+     is_composite s (fst o) = true /\ typed_sels s (fst o) (snd o) /\ nospread (snd o)) ->
+  covers d order -> (2 * doc_dep d <= fuel)%nat ->
+  nodupb (doc_fids d) = true -> spec_verdict s d <> VUntyped ->
+  opt_conflicts s d order fuel = Some (spec_conflicts s d).
+Proof. intros s d order fuel Hnf Hops. exact (equiv_fragment_free s d Hnf Hops order fuel). Qed.
+Print Assumptions C14_equiv_partial.
 
 (* Stated, not proved (see the header): for typed documents with identifying ids, any visiting
    order of the definitions and enough fuel, the memoised algorithm finds a conflict iff the
@@ -186,6 +215,22 @@ Example C14_example_opt :
   | _ => False
   end.
 Proof. vm_compute. split; reflexivity. Qed.
+
+(* the hypotheses of C14_equiv_partial are satisfiable (a fragment-free document with a conflict) *)
+Example C14_example_equiv_hyps :
+  let d := mkDoc [(10, SelInline 90 (Some 11) (SelField (fl 1 40 30) SelNil (SelField (fl 2 40 31) SelNil SelNil)) SelNil)] [] in
+  d_frags d = [] /\
+  (forall o, In o (d_ops d) ->
+     is_composite ex_schema (fst o) = true /\ typed_sels ex_schema (fst o) (snd o) /\ nospread (snd o)) /\
+  covers d (default_order d) /\ (2 * doc_dep d <= 10)%nat /\
+  nodupb (doc_fids d) = true /\ spec_verdict ex_schema d <> VUntyped /\
+  opt_conflicts ex_schema d (default_order d) 10 = Some true.
+Proof.
+  cbn zeta. split; [reflexivity|]. split.
+  - intros o [<-|[]]. cbn. repeat split; eauto.
+  - split; [intros i Hi; cbn in *; assert (i = 0%nat) by lia; subst; left; reflexivity|].
+    split; [cbn; lia|]. split; [reflexivity|]. split; [vm_compute; discriminate | vm_compute; reflexivity].
+Qed.
 
 (* PairSet: an exclusive entry does not answer the non-exclusive query; after re-recording
    non-exclusively it answers both *)
